@@ -55,13 +55,16 @@ Definition mon_final (e : eds) (rss : list ers) (nodes : list node) (pods : list
     while a canary is in progress, else the active one's) *)
 Definition mon_quiescent (e : eds) (rss : list ers) (nodes : list node) (pods : list pod) : list N :=
   let nel := count_if (eligible e rss) nodes in
-  let npods := count_if (eds_pod e) pods in
+  (* "daemon pods that exist": a pod stuck Terminating on a node that stopped answering is on its way out and is
+     not counted (status.ignoredUnresponsiveNodes reports its node) *)
+  let npods := count_if (fun p => eds_pod e p && negb (pod_terminating p)) pods in
   let st := e_status e in
   let live := match es_canary st with
               | Some c => rs_named e rss (cs_rs c)
               | None => rs_named e rss (es_active st) end in
   let nlive := match live with
-               | Some r => count_if (fun p => eds_pod e p && option_eqb N.eqb (p_hash p) (Some (r_tmplgen r))) pods
+               | Some r => count_if (fun p => eds_pod e p && negb (pod_terminating p) &&
+                                            option_eqb N.eqb (p_hash p) (Some (r_tmplgen r))) pods
                | None => 0 end in
   code_if ((es_desired st =? nel) && (es_current st =? npods) && (es_ready st =? npods) && (es_available st =? npods)) 18 ++
   code_if (es_uptodate st =? nlive) 19.
